@@ -20,7 +20,7 @@ import (
 //
 // Every configuration is built alone (empty process-wide cache) and then all together in order;
 // the probe answers (and construction errors / panics) must be identical.
-var memoStrings = []string{"abc", "ab", "x", "1", "a.c", "abc|x", "[ab]c", "list", "name", "(?i)abc", "^X-Tok", "Abc", "^abc", "müller", "MÜLLER"}
+var memoStrings = []string{"abc", "ab", "x", "1", "a.c", "abc|x", "[ab]c", "list", "name", "(?i)abc", "^X-Tok", "Abc", "^abc", "müller", "MÜLLER", "u{id}", "{id}"} // the last two: a REST template with a placeholder that is also a (literal) regular expression
 
 func memoConfig(role, s, variant string) (string, coraza.WAFConfig) {
 	cfg := coraza.NewWAFConfig()
@@ -246,7 +246,7 @@ func init() {
 				cfgs = append(cfgs, role+":"+gen.Field(pool[c.r.Intn(2)])+":"+variant)
 				c.stats.Hit("role:" + role)
 			}
-			probes := []string{gen.Field("abc"), gen.Field("x"), gen.Field("zzz"), gen.Field("1"), gen.Field(pool[0]), gen.Field("ABC"), gen.Field("c"), gen.Field("ab c"), gen.Field(`{"a":1}`), gen.Field(`{"b":1}`), gen.Field("müller"), gen.Field("MÜLLER")}
+			probes := []string{gen.Field("abc"), gen.Field("x"), gen.Field("zzz"), gen.Field("1"), gen.Field(pool[0]), gen.Field("ABC"), gen.Field("c"), gen.Field("ab c"), gen.Field(`{"a":1}`), gen.Field(`{"b":1}`), gen.Field("müller"), gen.Field("MÜLLER"), gen.Field("u42"), gen.Field("u{id}"), gen.Field("{id}")}
 			obs := c.run("memo", strings.Join(cfgs, ";"), strings.Join(probes, ","))
 			if strings.Contains(obs, "1") {
 				c.stats.Hit("some-probe-blocked")
